@@ -7,6 +7,7 @@ import (
 	"fmt"
 	"math"
 	"reflect"
+	"sort"
 	"strconv"
 	"strings"
 
@@ -189,7 +190,14 @@ func UnmarshalValue(span herrors.Span, self interface{}) (*Value, *VmInterrupt) 
 		return NewValueBool(self), nil
 	case map[string]interface{}:
 		fields := make(map[string]*Value)
-		for key, field := range self {
+		// in the order of the keys: which of several bad members an error names must not depend on the map
+		keys := make([]string, 0, len(self))
+		for key := range self {
+			keys = append(keys, key)
+		}
+		sort.Strings(keys)
+		for _, key := range keys {
+			field := self[key]
 			value, err := UnmarshalValue(span, field)
 			if err != nil {
 				return nil, err
